@@ -160,7 +160,7 @@ def _info(mciipm, data):
     """ipm_info on a file object whose KIND is chosen by the data (so that a replay makes the same choice):
     in-memory, real file, non-seekable stream, object with nothing but read()"""
     from vf import fileobjs
-    kind = fileobjs.READ_KINDS[(len(data) + (data[5] if len(data) > 5 else 0)) % 4]
+    kind = fileobjs.ALL_READ_KINDS[(len(data) + (data[5] if len(data) > 5 else 0)) % 7]
     if len(data) > 100000 and kind == 'file':
         kind = 'pipe'
     fo, done = fileobjs.reader(kind, data)
